@@ -45,7 +45,7 @@ RELEVANT = {
     "C07": {"dispatch-dependent-output", "crash", "guard-page"},
     "C11": {"asan", "garbage-dependent-output", "leak", "frame-write", "crash", "guard-page", "hang"},
     "C12": {"race", "schedule-dependent-output", "frozen-write", "deadlock", "crash", "guard-page", "hang"},
-    "C15": {"history-dependent-output", "crash", "guard-page"},
+    "C15": {"history-dependent-output", "fp-env-modified", "crash", "guard-page"},
     "C16": {"model-mismatch"},
     "C18": {"frozen-write", "ro-write", "source-modified"},
 }
